@@ -1,7 +1,9 @@
 \* liveness: every Dial returns (weak fairness per caller)
 CONSTANTS
-  IDs = {"Chrome-120", "Firefox-120", "iOS-14"}
-  None = "-"
+  IDs = {"Chrome-120", "Firefox-120", "Randomized"}
+  RandIDs = {"Randomized"}
+  Seeds = {1, 2, 3, 4, 5, 6}
+  Canon = TRUE
   MaxSteps = 1
   MaxCallers = 2
 SPECIFICATION Spec
